@@ -104,6 +104,22 @@ def _case_summary(case):
     return json.loads(s) if len(s) <= 4000 and s.endswith("}") else s
 
 
+CORPUS_SEED = -1
+
+
+def corpus_files(pid):
+    d = os.path.join(ROOT, "corpus", pid)
+    return sorted(os.path.join(d, f) for f in os.listdir(d) if f.endswith(".json")) if os.path.isdir(d) else []
+
+
+def corpus_cases(pid):
+    for path in corpus_files(pid):
+        with open(path) as f:
+            case = json.load(f)["case"]
+        case["variant"] = "corpus:" + os.path.basename(path)
+        yield case
+
+
 def worker_batch(args):
     """Run all cases of one batch seed.  Returns a picklable summary."""
     pid, seed, tier, case_timeout = args
@@ -129,7 +145,7 @@ def worker_batch(args):
     trace_key = getattr(mod, "trace_key", default_trace_key)
     old = signal.signal(signal.SIGALRM, _alarm)
     try:
-        it = iter(mod.cases(seed, tier))
+        it = iter(corpus_cases(pid)) if seed == CORPUS_SEED else iter(mod.cases(seed, tier))
         while True:
             signal.setitimer(signal.ITIMER_REAL, case_timeout)
             try:
@@ -466,6 +482,10 @@ def run_check(pid, tier="quick", seed=0, workers=None, budget=None, batches=None
         "contexts": set(),
     }
     seeds = [seed * 1_000_003 + i for i in range(cfg["batches"])]
+    if corpus_files(pid):
+        # the corpus of schedules that deeper searches found (corpus/<ID>/*.json, minimised replay files of defects
+        # since repaired): re-run first, on every change, in both tiers - the quick sample does not reach them again
+        seeds.insert(0, CORPUS_SEED)
     faulthandler.enable()
     # a check can never hang forever: hard exit (non-zero) well after the wall cap
     faulthandler.dump_traceback_later(cfg["wall"] * 3 + 600, exit=True)
